@@ -544,7 +544,7 @@ def _run(ctx, processor, rng, scratch):
     if ctx.replay_cases:
         envs += [(c["env"], c.get("kind", "replay")) for c in ctx.replay_cases if isinstance(c, dict) and "env" in c]
     envs += [(e, "corpus") for e in CORPUS + ORACLE_ONLY_CORPUS]
-    for i in range(ctx.n(700, 12000)):
+    for i in range(ctx.n(1000, 15000)):
         envs.append((gen_env(rng, i, ro=ro), "random"))
     keyerr = [(e, "keyerror") for e in KEYERR_CORPUS]
 
@@ -596,10 +596,10 @@ def _run(ctx, processor, rng, scratch):
             # edge A: text of the real code == text of the model, byte for byte (also checks the UTF-8 encoder)
             if rep["ok"] != text:
                 ctx.mismatch(case, f"_generate_env_str gives {text!r}, the model gives {rep['ok']!r}")
-                continue
-            if rep["bytes"].encode("latin-1") != text.encode("utf-8"):
+                rep = None      # the property is still evaluated on the real text below
+            elif rep["bytes"].encode("latin-1") != text.encode("utf-8"):
                 ctx.mismatch(case, "the model's UTF-8 encoder disagrees with str.encode")
-                continue
+                rep = None
             names = [k for k in env if k != MARKER and k not in ro]
             # the real framing code: send_env inline, send_env file, _run_depend_like_phase (gen_metadata)
             which = len(jobs) % 3
@@ -623,7 +623,7 @@ def _run(ctx, processor, rng, scratch):
                 jobinfo.append((case, None, "depend", chan))
         # model framing for the inline jobs
         freqs = [{"cmd": "c31.frame", "kind": "inline", "data": rep["ok"], "rest": "alive\n"}
-                 for (case, rep, how, chan) in jobinfo if how == "inline"]
+                 for (case, rep, how, chan) in jobinfo if how == "inline" and rep is not None]
         fit = iter(ctx.model(freqs))
         results = run_bash(jobs)
         for (case, rep, how, chan), (st, tail, vars_) in zip(jobinfo, results):
@@ -631,7 +631,7 @@ def _run(ctx, processor, rng, scratch):
             want = wanted_store(env, ro)
             got = store_of(vars_)
             ctx.count("route_" + how)
-            if how == "inline":
+            if how == "inline" and rep is not None:
                 fr = next(fit)
                 if fr["sent"].encode("latin-1") != chan:
                     ctx.mismatch(case, f"send_env wrote {chan[:80]!r}…, the model frames {fr['sent'][:80]!r}…")
@@ -660,7 +660,7 @@ def _run(ctx, processor, rng, scratch):
     ctx.extra.setdefault("timing_s", {})["pure_and_bash"] = round(time.time() - t0, 1)
     t0 = time.time()
     # =================================================================== bash contract: random scripts of the fragment
-    scripts = list(BASH_CORPUS) + [gen_script(rng) for _ in range(ctx.n(2500, 60000))]
+    scripts = list(BASH_CORPUS) + [gen_script(rng) for _ in range(ctx.n(3000, 60000))]
     reps = ctx.model([{"cmd": "c31.bash", "script": s} for s, _ in scripts])
     idx = [i for i, r in enumerate(reps) if r is not None and r != "bad-op"]
     results = run_bash([(scripts[i][0].encode("latin-1"), scripts[i][1], "source" if i % 2 else len(scripts[i][0].encode("latin-1")))
@@ -703,18 +703,27 @@ def _daemon(ctx, processor, rng, scratch, ro):
 
     routes = ["depend", "inline", "file"]
     corpus = [dict(e) for e in CORPUS if all(k.startswith("VT_") or k in (MARKER, "UID") for k in e)]
-    if ctx.quick():
-        # all routes for the defect witnesses, one route each for the rest of the corpus
-        envs = [(e, routes if i < 6 else [routes[i % 3]]) for i, e in enumerate(corpus)]
-    else:
-        envs = [(e, routes) for e in corpus]
-    envs += [(gen_env(rng, i, daemon=True, ro=ro), [routes[i % 3]]) for i in range(ctx.n(6, 150))]
-    # one big transfer (several pipe buffers)
-    envs.append(({"VT_big%d" % i: gen_value(rng) * 40 + "é'\\" * 2000 for i in range(8)}, routes))
+    # every corpus value in one mapping (unique names; every third name marked non-exported)
+    merged, marked = {"UID": "5"}, []
+    for i, e in enumerate(corpus):
+        for k, v in e.items():
+            if k.startswith("VT_"):
+                merged["VT_c%d_%s" % (i, k[3:])] = v
+                if len(merged) % 3 == 0:
+                    marked.append("VT_c%d_%s" % (i, k[3:]))
+    merged[MARKER] = " ".join(marked)
+    # (first transfer, second transfer on the same daemon = "the next request", routes)
+    plans = [(merged, gen_env(rng, 1000 + i, daemon=True, ro=ro), [r]) for i, r in enumerate(routes)]
+    if not ctx.quick():
+        plans += [(e, e, routes) for e in corpus]
+        plans += [(gen_env(rng, i, daemon=True, ro=ro), gen_env(rng, 5000 + i, daemon=True, ro=ro), [routes[i % 3]]) for i in range(60)]
+        # big transfers (several pipe buffers)
+        big = {"VT_big%d" % i: gen_value(rng) * 40 + "é'\\" * 2000 for i in range(8)}
+        plans.append((big, merged, routes))
     frame_reqs, frame_seen = [], []
-    for env, env_routes in envs:
+    for env1, env2, env_routes in plans:
         for route in env_routes:
-            case = {"env": env, "kind": "daemon-" + route}
+            case = {"env": env1, "env_second_transfer": env2, "kind": "daemon-" + route}
             out = os.path.join(scratch, "dump")
             if os.path.exists(out):
                 os.unlink(out)
@@ -724,7 +733,7 @@ def _daemon(ctx, processor, rng, scratch, ro):
             err = None
             try:
                 with Watchdog(ebp) as wd:
-                    for attempt in (1, 2):   # the second transfer on the same daemon is the "next request"
+                    for env in (env1, env2):   # the second transfer on the same daemon is the "next request"
                         if os.path.exists(out):
                             os.unlink(out)
                         if route == "depend":
@@ -762,9 +771,9 @@ def _daemon(ctx, processor, rng, scratch, ro):
                     ebp.shutdown_processor(force=True)
             except Exception:
                 pass
-            ctx.case(case, True, key=route + repr(sorted(env.items(), key=lambda kv: kv[0])))
+            ctx.case(case, True, key=route + repr(sorted(env1.items())) + repr(sorted(env2.items())))
             ctx.count("daemon_" + route)
-            ctx.traces += 1
+            ctx.traces += 2 if err is None else 1
             if err is not None:
                 ctx.violation(case, f"{route} transfer to a real daemon: {err}")
                 continue
